@@ -112,6 +112,10 @@ class StmtMixin:
             base = self.ev(t.value, fr)
             if isinstance(base, VOpt):
                 base = self.unwrap(base, t)
+            if isinstance(base, VObj):
+                # mutation of an opaque object: an effect
+                self.path.trace.append(('setattr', base, t.attr, v))
+                return
             if not isinstance(base, VStruct):
                 raise Unsupported(f'attribute store on {type(base).__name__}')
             base.f[self.mangle(t.attr, fr)] = v
@@ -187,6 +191,16 @@ class StmtMixin:
                     if is_sym(k) or k not in base.d:
                         raise Unsupported('del dict key')
                     del base.d[k]
+                elif isinstance(base, VBox) and base.kind == 'dict':
+                    k = self.zs.lift(self.unwrap(self.ev(t.slice, fr), t), base.term.sort().domain())
+                    has = z3.Select(base.term, k)
+                    if self.implicit_as_paths:
+                        if not self.path.branch(has):
+                            raise PyRaise(KeyError, (), t, implicit=True)
+                    else:
+                        self.oblige('safety:key', has, t)
+                        self.path.assume(has)
+                    base.term = z3.Store(base.term, k, False)
                 else:
                     raise Unsupported('del subscript')
             else:
